@@ -16,8 +16,11 @@ CLAIMED = {
     "C17": dict(
         text="Bounded symbolic verification: rolling_sum executed on all int16 series of length <= 6/8 with symbolic nodata "
              "(every window size), mean_grp for every labeling/missing pattern with symbolic values; solver decides the "
-             "cell-wise specification and 2-run nodata independence; counterexamples replayed on compiled kernels.",
-        note="int16 data and int16-representable nodata; floats as reals; accessor wrapper outside. Trusted: pysym, z3.",
+             "cell-wise specification and 2-run nodata independence; the accessors rolling.sum / mean_grp over xarray contracts for "
+             "int16 / int32 / int64 data with values and nodata symbolic over the whole dtype range (nodata from attrs or argument, "
+             "dtype handed to the kernel, trimming); counterexamples replayed on compiled kernels / accessors.",
+        note="kernel level: int16 data and int16-representable nodata; int -> float32 conversions are exact only up to 2**24 (modelled as "
+             "rounding beyond); float32 output rounding of large sums outside. Trusted: pysym, z3, xarray contracts.",
         technique="symbolic execution of kernel source + z3 LIA/LRA, 2-run relational query", ref="5 C17"),
     "C18": dict(
         text="Bounded symbolic verification: lroo source (np.where as symbolic-length array) against a run-counter definition for "
